@@ -6,7 +6,10 @@ import (
 	"encoding/json"
 	"fmt"
 	"os"
+	"os/exec"
+	"path/filepath"
 	"strings"
+	"sync/atomic"
 	"testing"
 
 	"github.com/roddhjav/apparmor.d/pkg/aa"
@@ -291,6 +294,110 @@ func TestC11_Lists(t *testing.T) {
 	})
 }
 
+// ---------------------------------------------------------------------------
+// fresh processes: "the same for every order in which the same rules are supplied" also
+// forbids a comparison that remembers what it compared before. Inside one process such a
+// memory is consistent with itself; it shows when the same rules are sorted by processes
+// that have seen nothing else.
+
+// TestC11_Child sorts the list given in VERIF_C11_CHILD (a file with a C11List) in the order
+// given by its permutation and prints the result.
+func TestC11_Child(t *testing.T) {
+	path := os.Getenv("VERIF_C11_CHILD")
+	if path == "" {
+		t.Skip("child mode only")
+	}
+	data, err := os.ReadFile(path)
+	if err != nil {
+		t.Fatal(err)
+	}
+	var c C11List
+	if err := json.Unmarshal(data, &c); err != nil {
+		t.Fatal(err)
+	}
+	l := make(aa.Rules, len(c.L))
+	for i, p := range c.Perm {
+		l[i] = c.L[p].ToRule()
+	}
+	out, err := safeSortPrint(l)
+	if err != nil {
+		fmt.Printf("C11OUT-BEGIN\nERR %v\nC11OUT-END\n", err)
+		return
+	}
+	fmt.Printf("C11OUT-BEGIN\n%sC11OUT-END\n", out)
+}
+
+var c11ChildSeq int64
+
+func c11Child(c C11List) (string, error) {
+	data, _ := json.Marshal(c)
+	f := filepath.Join(refScratch(), fmt.Sprintf("c11-%d-%d.json", os.Getpid(), atomic.AddInt64(&c11ChildSeq, 1)))
+	if err := os.WriteFile(f, data, 0o644); err != nil {
+		return "", err
+	}
+	defer os.Remove(f)
+	cmd := exec.Command(os.Args[0], "-test.run", "^TestC11_Child$", "-test.v")
+	cmd.Env = append(os.Environ(), "VERIF_C11_CHILD="+f, "VERIF_EV_OUT=")
+	out, err := cmd.CombinedOutput()
+	if err != nil {
+		return "", fmt.Errorf("child: %v: %s", err, tail(string(out), 400))
+	}
+	text := string(out)
+	i, j := strings.Index(text, "C11OUT-BEGIN\n"), strings.Index(text, "C11OUT-END")
+	if i < 0 || j < 0 {
+		return "", fmt.Errorf("child printed no result: %s", tail(text, 400))
+	}
+	return text[i+len("C11OUT-BEGIN\n") : j], nil
+}
+
+func c11FreshOracle(c C11List) error {
+	ident := C11List{L: c.L, Perm: intRange(len(c.L))}
+	a, err := c11Child(ident)
+	if err != nil {
+		return fmt.Errorf("INFRA: %v", err)
+	}
+	b, err := c11Child(c)
+	if err != nil {
+		return fmt.Errorf("INFRA: %v", err)
+	}
+	if a != b {
+		return fmt.Errorf("two fresh processes sorting the same rules supplied in different orders print different results:\n--- order A\n%s--- order B\n%s", a, b)
+	}
+	// and this process, which has compared many other rules before, agrees with them
+	here, err := safeSortPrint(rsToRules(c.L))
+	if err != nil {
+		return err
+	}
+	if here != a {
+		return fmt.Errorf("a fresh process and a process that has sorted other rules before print different results for the same rules:\n--- fresh\n%s--- after other work\n%s", a, here)
+	}
+	return nil
+}
+
+func TestC11_Fresh(t *testing.T) {
+	ev := NewEv(t, "C11", "fresh", "lists of 2-12 rules (file rules 2/3 of the time, paths sharing a first component with a recognised prefix forced) and a permutation, each order sorted by its own fresh process and once more by this process after all its earlier comparisons; oracle: the three printed results are equal (the comparison has no memory). Non-trivial as for pairs")
+	rapid.Check(t, func(t *rapid.T) {
+		n := rapid.IntRange(2, 12).Draw(t, "n")
+		var l []RS
+		for i := 0; i < n; i++ {
+			if chance(t, "other", 3) {
+				l = append(l, genC11Rule(t, pick(t, "k", c11Kinds), false))
+			} else {
+				l = append(l, GenRule(t, "file", GenOpt{V: c11FileVocab, Small: true}))
+			}
+		}
+		c := C11List{L: l, Perm: rapid.Permutation(intRange(n)).Draw(t, "perm")}
+		ev.Case(c11Nontrivial(l))
+		ev.Sample(c)
+		if err := c11FreshOracle(c); err != nil {
+			if strings.HasPrefix(err.Error(), "INFRA") {
+				t.Fatalf("%v", err)
+			}
+			t.Fatalf("%s", ev.Fail(c, "", "%v", err))
+		}
+	})
+}
+
 func intRange(n int) []int {
 	r := make([]int, n)
 	for i := range r {
@@ -324,6 +431,10 @@ func TestC11_Replay(t *testing.T) {
 		var c C11List
 		json.Unmarshal(rf.Case, &c)
 		oerr = c11ListOracle(c)
+	case "fresh":
+		var c C11List
+		json.Unmarshal(rf.Case, &c)
+		oerr = c11FreshOracle(c)
 	default:
 		t.Fatalf("unknown sub %q", rf.Sub)
 	}
